@@ -310,14 +310,19 @@ class AffineDomain(Domain):
             s = s.copy()
             s._k = None
             wrap = self.guard_may_wrap(flow, s, c)
+            g = None
             if op == ">=":
-                s.d[("ge", a - b, wrap)] = True
+                g = a - b
             elif op == "<=":
-                s.d[("ge", b - a, wrap)] = True
+                g = b - a
             elif op == ">":
-                s.d[("ge", a - b - Aff.const(1), wrap)] = True
+                g = a - b - Aff.const(1)
             elif op == "<":
-                s.d[("ge", b - a - Aff.const(1), wrap)] = True
+                g = b - a - Aff.const(1)
+            if g is not None:
+                if g.is_const():
+                    return [s] if g.c >= 0 else []          # decided: infeasible branch pruned
+                s.d[("ge", g, wrap)] = True
             elif op == "==":
                 d = a - b
                 if d.is_const() and d.c != 0:
